@@ -990,6 +990,11 @@ func (r *stateResolverV2) wrapOtherEventsForSort(events []PDU) []*stateResV2Conf
 // wrapPowerLevelEventsForSort and then starts the Kahn's algorithm in order to
 // topologically sort them. The result that is returned is correctly ordered.
 func (r *stateResolverV2) reverseTopologicalOrdering(events []PDU, order TopologicalOrder) []PDU {
+	// An event that is listed twice (a conflicted event that is also in the auth difference,
+	// or one that fullControlSet pulled in for two control events) would count twice against
+	// its auth events in Kahn's algorithm; they would never become ready and be emitted as
+	// strays, by power level and timestamp instead of topologically.
+	events = uniqueEvents(events)
 	result := make([]PDU, 0, len(events))
 	switch order {
 	case TopologicalOrderByAuthEvents:
